@@ -58,6 +58,19 @@ fn main() {
             }
             println!("wrote corpora ({n} parse seeds)");
         }
+        "show-gen" => {
+            // show-gen <c19|c12> <replay file>: print the generated program of a stored case without running it
+            let text = std::fs::read_to_string(&args[2]).unwrap();
+            let v: serde_json::Value = serde_json::from_str(&text).unwrap();
+            let st: Vec<Vec<u32>> = v["streams"].as_array().unwrap().iter().map(|a| a.as_array().unwrap().iter().map(|x| x.as_u64().unwrap() as u32).collect()).collect();
+            let cfg = match args[1].as_str() {
+                "c19" => dtr_verif::props::c19::lines_cfg(),
+                _ => dtr_verif::props::c12::break_cfg(),
+            };
+            let b = dtr_verif::gen::gen_case(&mut dtr_verif::choice::Ch::new(&st[0]), &cfg);
+            println!("{}", dtr_verif::print::canonical(&b.prog).text);
+            println!("{}", dtr_verif::model::describe_sigs(&b.sigs));
+        }
         "show-c17" => {
             let text = std::fs::read_to_string(&args[1]).unwrap();
             let v: serde_json::Value = serde_json::from_str(&text).unwrap();
